@@ -168,7 +168,12 @@ def _build_evaluator(
         VectorUnarySum,
         VectorExpressionSum,
     )
-    from optyx.core.matrices import QuadraticForm
+    from optyx.core.matrices import (
+        FrobeniusNorm,
+        MatrixSum,
+        MatrixVariable,
+        QuadraticForm,
+    )
 
     if isinstance(expr, Constant):
         value = expr.value
@@ -232,6 +237,23 @@ def _build_evaluator(
         Q = expr.matrix
         vec_fn = _build_vector_evaluator(expr.vector, var_indices)
         return lambda x, vf=vec_fn, Q=Q: float(vf(x) @ Q @ vf(x))
+
+    elif isinstance(expr, (MatrixSum, FrobeniusNorm)):
+        # sum(X) / ||X||_F over all matrix elements (row-major)
+        mat = expr.matrix
+        if isinstance(mat, MatrixVariable):
+            indices = np.array(
+                [var_indices[v.name] for row in mat._variables for v in row]
+            )
+            if isinstance(expr, MatrixSum):
+                return lambda x, idx=indices: float(np.sum(x[idx]))
+            return lambda x, idx=indices: float(np.linalg.norm(x[idx]))
+        elem_fns = [_build_evaluator(e, var_indices) for e in mat.flatten()]
+        if isinstance(expr, MatrixSum):
+            return lambda x, fns=elem_fns: float(sum(f(x) for f in fns))
+        return lambda x, fns=elem_fns: float(
+            np.linalg.norm(np.array([f(x) for f in fns], dtype=float))
+        )
 
     elif isinstance(expr, VectorPowerSum):
         # sum(x ** k) - efficient numpy implementation
